@@ -1,0 +1,80 @@
+//go:build verif
+
+// Contracts for the deductive verifier in /verif (govc): ordering of results
+// by score (C29). Comment-only file, compiled only with -tags verif. Scores
+// are modelled as real numbers (NaN, infinities and rounding are not).
+
+package index
+
+// ---------------------------------------------------------------------------
+// C29: comparators
+// ---------------------------------------------------------------------------
+
+// Higher score first, for line matches, chunk matches and files alike.
+//@ func index.(matchScoreSlice).Less
+//@   requires 0 <= i && i < len(m) && 0 <= j && j < len(m)
+//@   ensures result == (m[i].Score > m[j].Score)
+//@   assigns nothing
+//@ func index.(chunkMatchScoreSlice).Less
+//@   requires 0 <= i && i < len(m) && 0 <= j && j < len(m)
+//@   ensures result == (m[i].Score > m[j].Score)
+//@   assigns nothing
+//@ func index.(fileMatchesByScore).Less
+//@   requires 0 <= i && i < len(m) && 0 <= j && j < len(m)
+//@   ensures result == (m[i].Score > m[j].Score)
+//@   assigns nothing
+
+// "greater than" on (real) scores is a strict weak order.
+//@ lemma scoreOrderIrreflexive: forall a float64 :: !(a > a)
+//@ lemma scoreOrderTransitive: forall a, b, c float64 :: a > b && b > c ==> a > c
+//@ lemma scoreOrderIncomparableTransitive: forall a, b, c float64 :: !(a > b) && !(b > a) && !(b > c) && !(c > b) ==> !(a > c) && !(c > a)
+
+// ---------------------------------------------------------------------------
+// C29: the one documented exception to "files in non-increasing score order"
+// ---------------------------------------------------------------------------
+
+//@ pure func sortedDesc(ms []zoekt.FileMatch) bool = forall a, b int :: 0 <= a && a < b && b < len(ms) ==> ms[a].Score >= ms[b].Score
+
+// path.Ext / slices.Contains are pure string functions (assumed frames).
+//@ func path.Ext
+//@   trusted
+//@   assigns nothing
+
+// boostNovelExtension on a list sorted by non-increasing score: afterwards
+// every pair of files neither of which sits at the promotion slot is still in
+// non-increasing score order, the files before the slot are untouched, and a
+// promoted file scores at least minScoreRatio times the file it displaces.
+//@ func index.boostNovelExtension
+//@   requires sortedDesc(ms) && 0 <= boostOffset && 0 <= minScoreRatio && minScoreRatio <= 1
+//@   let S0 = ms[boostOffset].Score
+//@   loop 1:
+//@     invariant exts != nil && fresh(exts) && len(exts) == boostOffset
+//@     invariant forall a int :: 0 <= a && a < len(ms) ==> ms[a].Score == old(ms[a].Score)
+//@   loop 2:
+//@     invariant fresh(exts)
+//@     invariant forall a int :: 0 <= a && a < len(ms) ==> ms[a].Score == old(ms[a].Score)
+//@   loop 3:
+//@     invariant 0 <= i && i < len(candidates) && fresh(exts)
+//@     invariant candidates[i].Score >= minScoreForNovelty
+//@     invariant forall a int :: 0 <= a && a < boostOffset ==> ms[a].Score == old(ms[a].Score)
+//@     invariant forall a int :: 0 <= a && a < i ==> candidates[a].Score == old(ms[boostOffset + now(a)].Score)
+//@     invariant forall a int :: i < a && a < len(candidates) ==> candidates[a].Score <= old(ms[boostOffset + now(a) - 1].Score)
+//@     invariant forall a, b int :: i < a && a < b && b < len(candidates) ==> candidates[a].Score >= candidates[b].Score
+//@     invariant forall a int :: i < a && a < len(candidates) ==> candidates[a].Score <= old(ms[boostOffset].Score)
+//@     decreases i
+//@   ensures forall a, b int :: 0 <= a && a < b && b < len(ms) && a != boostOffset && b != boostOffset ==> ms[a].Score >= ms[b].Score
+//@   ensures forall a int :: 0 <= a && a < boostOffset && a < len(ms) ==> ms[a].Score == old(ms[a].Score)
+//@   ensures boostOffset < len(ms) ==> ms[boostOffset].Score >= minScoreRatio * S0 || ms[boostOffset].Score == S0
+
+// sort.Sort on the file matches (assumed; the comparator is proved above):
+// non-increasing scores afterwards.
+//@ func sort.Sort
+//@   trusted
+//@   flag only_for=index.SortFiles
+//@   ensures typeis(data, "fileMatchesByScore") ==> sortedDesc(as(data, "fileMatchesByScore"))
+//@   assigns anyelem("zoekt.FileMatch")
+
+// SortFiles: non-increasing score order except for the single documented
+// promotion into third place.
+//@ func index.SortFiles
+//@   ensures forall a, b int :: 0 <= a && a < b && b < len(ms) && a != 2 && b != 2 ==> ms[a].Score >= ms[b].Score
